@@ -112,7 +112,42 @@ func (c14) Gen(tier string, seed int64, emit func([]Ev)) {
 			}
 			frags := splitSizes(n, first)
 			pk := packetise(r, pl, frags, pmtPid, ri%2 == 0)
-			emit([]Ev{{"op": "filter", "abs": absPMTEv(pmt), "ptr": ptr, "packets": pktsEv(pk), "pids": q}})
+			fe := Ev{"op": "filter", "abs": absPMTEv(pmt), "ptr": ptr, "packets": pktsEv(pk), "pids": q}
+			if ri%3 != 1 {
+				emit([]Ev{fe})
+				continue
+			}
+			// The result must not depend on what the library was asked before: precede the call with
+			// calls whose own outcome is not judged here (ill-formed packet lists, other PMTs).
+			var h []Ev
+			for k := 1 + r.Intn(2); k > 0; k-- {
+				other := randPMT(r, 1+r.Intn(6), false)
+				opl := c06Payload([]int{0, 3}[r.Intn(2)], nil, pmtSection(other), 0)
+				ofr := splitSizes(len(opl), 1+r.Intn(60))
+				opk := packetise(r, opl, ofr, pmtPid, false)
+				var want []int
+				for _, st := range other.Streams {
+					want = append(want, st.Pid)
+				}
+				switch r.Intn(4) {
+				case 0: // a packet without payload after packets with payload
+					var np packet.Packet
+					np[0], np[1], np[2], np[3], np[4] = 0x47, byte(pmtPid>>8), byte(pmtPid), 0x20, 183
+					at := 1 + r.Intn(len(opk))
+					opk = append(opk[:at:at], append([]packet.Packet{np}, opk[at:]...)...)
+				case 1: // the last packet is missing
+					if len(opk) > 1 {
+						opk = opk[:len(opk)-1]
+					}
+				case 2: // ask for a PID that is not there
+					want = []int{0x1ffe}
+				}
+				if want == nil {
+					want = []int{}
+				}
+				h = append(h, Ev{"op": "disturb", "packets": pktsEv(opk), "pids": want})
+			}
+			emit(append(h, fe))
 		}
 		// RemoveElementaryStreams / Pids / PIDExists on the decoded PMT
 		for k := 0; k < 4; k++ {
@@ -144,9 +179,23 @@ func pmtPidIn(pids []int, q int) bool {
 var c14Digits = regexp.MustCompile(`\d+`)
 
 func (c14) Exec(h []Ev) []Ev {
+	// packets returned by earlier calls of this history, with the content they had then
+	var heldP []*packet.Packet
+	var heldV []packet.Packet
 	for _, e := range h {
+		e["earlier_same"] = true
 		e["panic"] = guard(func() {
 			switch GS(e["op"]) {
+			case "disturb":
+				// outcome not judged (the input may be ill-formed); only its after-effects matter
+				guard(func() {
+					out, _ := psi.FilterPMTPacketsToPids(evPkts(e["packets"]), GIs(e["pids"]))
+					for _, p := range out {
+						if p != nil {
+							heldP, heldV = append(heldP, p), append(heldV, *p)
+						}
+					}
+				})
 			case "filter":
 				in := evPkts(e["packets"])
 				keep := make([]packet.Packet, len(in))
@@ -177,6 +226,16 @@ func (c14) Exec(h []Ev) []Ev {
 					}
 				}
 				e["in_same"] = same
+				for i, p := range heldP {
+					if *p != heldV[i] {
+						e["earlier_same"] = false
+					}
+				}
+				for _, p := range out {
+					if p != nil {
+						heldP, heldV = append(heldP, p), append(heldV, *p)
+					}
+				}
 			case "remove":
 				pmt, err := psi.NewPMT(GB(e["payload"]))
 				if err != nil {
@@ -211,6 +270,9 @@ func (c14) Exec(h []Ev) []Ev {
 }
 
 func (c14) Class(e Ev) string {
+	if GS(e["op"]) == "disturb" {
+		return "disturb"
+	}
 	a := evAbsPMT(e["abs"])
 	if GS(e["op"]) == "remove" {
 		return fmt.Sprintf("remove/streams%d/rm%d", bucket(len(a.Streams)), len(GIs(e["remove"])))
